@@ -29,7 +29,7 @@ def tasks(tier):
         # thorough: a listener (3 more callbacks per transition) on the single-call histories from a; two calls elsewhere
         with_listener = not quick and values == "int" and s0 == 0
         out.append({"kind": "history", "engine": engine, "rtc": rtc, "allow": False, "s0": s0, "first": first, "values": values,
-                    "calls": 1 if quick or with_listener else 2, "budget": budget, "listener": with_listener,
+                    "calls": 2 if (not quick and values == "int" and engine == "sync" and not with_listener) else 1, "budget": budget, "listener": with_listener,
                     "drop": ["before_transition"] if values in ("first_none", "single_int") else [],
                     "send_events": ["go", "hop"] if quick else ["go", "hop", "tick"]})
 
@@ -74,7 +74,7 @@ BOUNDS = {
     "(+ guards/validator); every pre-state and the from-construction scenario (initial enter callbacks "
     "may send); one top-level event; up to 2 nested sends placed at any callback invocation, each of {go,hop}; engines sync rtc (all pre-states), sync non-rtc (pre-states a, c), "
     "all-async (pre-state a; from-construction with 1 nested send); self-triggering chain of symbolic length N<=4 with call-stack depth compared link by link.",
-    "thorough": "as quick with histories of 2 top-level events (pre-states b, c, from-construction) or one event with a listener adding 3 more callbacks per transition (pre-state a), nested events {go,hop,tick}, all pre-states on the async engine, chain N<=8 (two-call histories with the listener did not exhaust a single task in an hour and were cut).",
+    "thorough": "as quick with histories of 2 top-level events on the sync engine (pre-states b, c, from-construction; rtc and non-rtc) or one event with a listener adding 3 more callbacks per transition (pre-state a), nested events {go,hop,tick}, all pre-states on the async engine, chain N<=8 (two-call histories with the listener did not exhaust a single task in an hour and were cut).",
 }
 OUTSIDE = "more than 3 nested sends per history; chains longer than the bound are covered by the depth-equality step and by one concrete 5000-link run (sanity, reported separately); more than a handful of *pending* events - backed by one concrete burst of (queue capacity + 1, or 1100) sends from one callback per engine, which is a test of the no-capacity assumption, not a solver result; OS threads (C06)"
 OBLIGATIONS = ["burst-all-processed", "first-result-none", "nested-send", "queued-event-ran", "from-construction", "chain-link", "nested-send-failed", "failed-call:TNA"]
